@@ -131,6 +131,42 @@ def roundtrip(ctx, dim, grid, n_markers, named, lag_fields):
 
 
 @scenario
+def roundtrip_mixed_precision(ctx, dim, n):
+    """IO object declared single precision, registered arrays double precision (what CosseratRodIO(real_dtype=float32) does with
+    PyElastica's float64 rod data): the round trip must still be bit-exact"""
+    fa = FileAccess(ctx)
+    try:
+        if ctx.sym:
+            fa.stub.SOURCE_IS_DOUBLE[0] = True
+        ios, arrs = [], []
+        for tag in ("a", "b"):
+            io = fa.io_mod.IO(dim=dim, real_dtype=np.float32)
+            g, ls, lv = (ctx.array(f"{tag}_g", (dim, n), default=1 / 3), ctx.array(f"{tag}_ls", (n,), default=1 / 7), ctx.array(f"{tag}_lv", (dim, n), default=0.1))
+            if not ctx.sym:
+                g, ls, lv = (np.array(x, dtype=np.float64) for x in (g, ls, lv))
+                if not ctx.model:
+                    rng = np.random.default_rng(3)
+                    g, ls, lv = (rng.standard_normal(x.shape) for x in (g, ls, lv))
+            io.add_as_lagrangian_fields_for_io(lagrangian_grid=g, lagrangian_grid_name="grid", ls=ls, lv=lv)
+            ios.append(io)
+            arrs.append({"g": g, "ls": ls, "lv": lv})
+        prior = {k: v.copy() for k, v in arrs[0].items()}
+        fname = fa.path("m.h5")
+        ios[0].save(h5_file_name=fname, time=0.5)
+        ios[1].load(h5_file_name=fname)
+        for k in prior:
+            if ctx.sym:
+                ctx.eq_array(f"restored_bit_exactly_with_single_precision_IO_and_double_data:{k}", arrs[1][k], prior[k])
+            else:
+                ok = np.array_equal(arrs[1][k], prior[k])
+                ctx.claim(f"restored_bit_exactly_with_single_precision_IO_and_double_data:{k}[0]", ok) if ctx.target and ctx.target.startswith(f"restored_bit_exactly_with_single_precision_IO_and_double_data:{k}[") else None
+    finally:
+        if ctx.sym:
+            fa.stub.SOURCE_IS_DOUBLE[0] = False
+        fa.cleanup()
+
+
+@scenario
 def rejection(ctx, dim, grid, n_markers):
     """symbolic presence of every key + symbolic stored parameters: load raises unless all registered
     keys are present and parameters agree within numpy.allclose's tolerance"""
@@ -290,6 +326,7 @@ def main():
             chk.add(roundtrip, real_t=rt, dim=dim, grid=grid, n_markers=[dim + 1, 2 * dim], named=False, lag_fields=True)
             chk.add(roundtrip, real_t=rt, dim=dim, grid=grid, n_markers=[4], named=True, lag_fields=False)
             chk.add(rejection, real_t=rt, dim=dim, grid=grid, n_markers=[4])
+            chk.add(roundtrip_mixed_precision, real_t=rt, dim=dim, n=3)
             chk.add(derived_io_classes, real_t=rt, kind="eulerian", dim=dim)
             chk.add(derived_io_classes, real_t=rt, kind="rod", dim=dim)
     chk.bounds = ["marker counts N in {1, dim-1, dim, dim+1, 5} (one grid), two grids (dim+1, 2dim) with default names, a grid without fields", "Eulerian grids (2,3), (2,2,3); one scalar + one vector field per kind",
